@@ -19,3 +19,5 @@ import MicroHttp.Props.Tables
 #print axioms MicroHttp.C01.output_side_invisible
 #print axioms MicroHttp.C01.history_input_is_reads_only
 #print axioms MicroHttp.Tables.no_shared_state
+#print axioms MicroHttp.Tables.no_interior_mutability
+#print axioms MicroHttp.Tables.conn_new
